@@ -4,4 +4,5 @@ export GOFLAGS=-mod=mod GOPROXY=off GOSUMDB=off GOTOOLCHAIN=local
 d=$1; pkg=$2; h=$3; shift 3
 files=""
 for f in /verif/harness/$d/*.go; do case $f in *_test.go) ;; *) files="$files -file $f";; esac; done
+case $d in mysql|postgres|sqlite) files="$files -xfile ariga.io/atlas/schemahcl=/verif/harness/x_schemahcl/zz_verif_export.go";; esac
 /verif/bin/symgo -pkg $pkg -harness $h $files "$@" 2>&1 | grep -v '^WARNING'
